@@ -37,6 +37,8 @@ def parse (toks : List String) : Option Op :=
   match toks with
   | ["key", pk, a] => do pure (.key (← Hex.ofHexChars pk.toList) (← addr? a))
   | ["height", h] => do pure (.height (← nat? h))
+  | ["time", t] => do pure (.time (← nat? t))
+  | ["fee", sg, a, chain, view, fee] => do pure (.fee (← signers? sg) (← addr? a) (← nat? chain) (← nat? view) (← nat? fee))
   | "init" :: mbcv :: peers => do pure (.init (← nat? mbcv) (← peers.mapM peer?))
   | ["reg", sg, pk, a] => do pure (.reg (← signers? sg) (tok pk) (← addr? a))
   | ["unreg", sg, pk, a] => do pure (.unreg (← signers? sg) (tok pk) (← addr? a))
@@ -136,6 +138,10 @@ def dump (s : State) : String :=
     ++ ";signs=" ++ mapByHex s.signs sortedAddrs
     ++ ";scapply=" ++ mapByNat s.scApply scRec ++ ";scupd=" ++ mapByNat s.scUpd scRec
     ++ ";scquit=[" ++ joinWith "," ((sortBy (fun a b => decide (a ≤ b)) s.scQuit).map toString) ++ "];sc=" ++ mapByNat s.sc scRec
+    ++ ";fee=" ++ mapByNat s.fees (fun p => toString p.1 ++ ":" ++ toString p.2)
+    ++ ";feeinfo=[" ++ joinWith "|" ((sortBy (fun a b => decide (a.1.1 < b.1.1 ∨ (a.1.1 = b.1.1 ∧ a.1.2 ≤ b.1.2))) s.feeInfos).map (fun p =>
+        toString p.1.1 ++ "/" ++ toString p.1.2 ++ ">" ++ toString p.2.1 ++ ":" ++
+          joinWith "," (sortBy (fun a b => decide (a ≤ b)) (p.2.2.map (fun e => Hex.toHex e.1 ++ "=" ++ toString e.2))))) ++ "]"
     ++ ";rl=[" ++ sortedAddrs s.relayers ++ "];rlapply=" ++ mapByNat s.rlApply reqA ++ ";rlrm=" ++ mapByNat s.rlRemove reqA
     ++ ";rlaid=" ++ optNat s.rlApplyId ++ ";rlrid=" ++ optNat s.rlRemoveId
     ++ ";sv=" ++ sv ++ ";svapply=" ++ mapByNat s.svApply reqS ++ ";svrm=" ++ mapByNat s.svRemove reqS
@@ -155,6 +161,7 @@ def outcome (s : State) (op : Op) (dry : Bool) : State × String :=
     match op with
     | .key _ _ => (o.st, "ok")
     | .height _ => (o.st, "ok")
+    | .time _ => (o.st, "ok")
     | .restart => (o.st, "ok")
     | _ => (shown, "ok:" ++ o.ret ++ " " ++ untok (joinWith "," o.events) ++ " " ++ digest shown)
   | .error .err => (s, "err " ++ digest s)
@@ -162,7 +169,7 @@ def outcome (s : State) (op : Op) (dry : Bool) : State × String :=
 
 def dryable : List String → Bool
   | [] => false
-  | t :: _ => !(["key", "height", "dump", "dry", "admit", "refresh", "restart"].contains t)
+  | t :: _ => !(["key", "height", "time", "dump", "dry", "admit", "refresh", "restart"].contains t)
 
 def step (s : State) (toks : List String) : State × String :=
   match toks with
